@@ -406,9 +406,16 @@ def r03_4(ctx: Ctx, taint: Taint, closure, sinks, link_sinks, roots) -> None:
     """because links can be created during extraction, sinks in the per-member writer need a resolving check."""
     memo: Dict[str, bool] = {}
     writer_funcs = {f.qname: f for f, _, _, _ in link_sinks}
-    for fq, f in writer_funcs.items():
+    # sinks that run AFTER the per-member writer (post-pass utime/chmod): a registered path may meanwhile have been replaced by a link
+    ex0 = shared.szf(ctx, "_extract")
+    ecfg = cfg_of(ex0.node)
+    wnodes = [q.node_for(ex0, c) for c in q.calls(ex0) if "py7zr:Worker.extract" in shared.targets_of(ctx, ex0, c)]
+    post_sinks = [s for s in sinks if s[0] is ex0 and any(ecfg.reaches(w, q.node_for(ex0, s[1])) for w in wnodes)]
+    work = [(f, [s for s in sinks if s[0] is f]) for f in writer_funcs.values()] + ([(ex0, post_sinks)] if post_sinks else [])
+    for f, fsinks in work:
+        fq = f.qname
         cfg = cfg_of(f.node)
-        for (g, c, operand, kind) in [s for s in sinks if s[0] is f]:
+        for (g, c, operand, kind) in fsinks:
             cn = q.node_for(f, c)
             good = False
             why = "no dominating call of a containment check that resolves links (realpath/resolve)"
